@@ -115,12 +115,10 @@ impl Object for Font {
             })
         };
 
-        let encoding = dict.remove("Encoding").map(|p| Object::from_primitive(p, resolve)).transpose()?;
+        // (read as options: a reference to a missing object is the same as no entry)
+        let encoding = Option::<Encoding>::from_primitive(dict.remove("Encoding").unwrap_or(Primitive::Null), resolve)?;
 
-        let to_unicode = match dict.remove("ToUnicode") {
-            Some(p) => Some(Object::from_primitive(p, resolve)?),
-            None => None
-        };
+        let to_unicode = Option::<RcRef<Stream<()>>>::from_primitive(dict.remove("ToUnicode").unwrap_or(Primitive::Null), resolve)?;
         let _other = dict.clone();
         let data = match subtype {
             FontType::Type0 => FontData::Type0(Type0Font::from_dict(dict, resolve)?),
